@@ -140,7 +140,9 @@ func genSoup(t *rapid.T) *Soup {
 		sp.Unit = []byte(pick(t, "unit", hugeUnits))
 		sp.Rep = 1200000 / len(sp.Unit)
 		if len(sp.Unit) <= 2 {
-			sp.Rep = rapid.SampledFrom([]int{1200000, 8000000}).Draw(t, "rep")
+			// (8 M repetitions were needed to exhaust the stack through the lexer's recursion - fixed in /repo; a
+			// 1.2 MB input keeps the shape in the search at a tenth of the cost: the parser needs ~10 us per byte)
+			sp.Rep = 1200000
 		}
 		// shapes of listed open findings are kept out of the main search by construction
 		if pbt.Open("C11", "deep-pattern-nesting") && sp.deepPattern() {
